@@ -39,7 +39,7 @@ Inductive style :=
 | StFromPkg (x : option N)              (* from p import b [as x] *)
 | StFromMod (g : N) (k : option N)      (* from p.b import g [as k] *)
 | StStar                                (* from p.b import * *)
-| StRelPkg                              (* from . import b          (client in package p) *)
+| StRelPkg (x : option N)               (* from . import b [as x]   (client in package p) *)
 | StRelMod (g : N) (k : option N).      (* from .b import g [as k]  (client in package p) *)
 
 Definition style_imports (p : path) (b : N) (st : style) : list istmt :=
@@ -49,7 +49,7 @@ Definition style_imports (p : path) (b : N) (st : style) : list istmt :=
   | StFromPkg x => [IFrom 0 p [(b, x)]]
   | StFromMod g k => [IFrom 0 (p ++ [b]) [(g, k)]]
   | StStar => [IFrom 0 (p ++ [b]) [(STAR, None)]]
-  | StRelPkg => [IFrom 1 [] [(b, None)]]
+  | StRelPkg x => [IFrom 1 [] [(b, x)]]
   | StRelMod g k => [IFrom 1 [b] [(g, k)]]
   end.
 
@@ -61,7 +61,7 @@ Definition style_base (p : path) (b : N) (st : style) : option dotted :=
   | StImport => Some (p ++ [b])
   | StImportAs x => Some [x]
   | StFromPkg x => Some [or_name x b]
-  | StRelPkg => Some [b]
+  | StRelPkg x => Some [or_name x b]
   | _ => None
   end.
 
@@ -89,7 +89,7 @@ Definition fallback_ok (l : layout) (folder : path) (dest : path) : bool :=
   | _, [] => true
   end.
 
-Definition style_side (w : world) (p : path) (b : N) (dest : path) (folder : path) (st : style) : bool :=
+Definition style_side (V : variant) (w : world) (p : path) (b : N) (dest : path) (folder : path) (st : style) : bool :=
   let l := w_l w in
   fallback_ok l folder dest
   && match st with
@@ -98,7 +98,9 @@ Definition style_side (w : world) (p : path) (b : N) (dest : path) (folder : pat
      | StFromPkg x => match p with [] => false | _ => true end
      | StFromMod g k => negb (N.eqb g b) && negb (N.eqb g STAR)
      | StStar => true
-     | StRelPkg => path_eqb folder p && match p with [] => false | _ => true end
+     | StRelPkg x => path_eqb folder p && match p with [] => false | _ => true end
+                     (* the aliased form is only handled once the import context knows the folder *)
+                     && match x with None => true | Some y => v_relctx V && negb (N.eqb y b) end
      | StRelMod g k => path_eqb folder p && match p with [] => false | _ => true end
                        && negb (N.eqb g b) && negb (N.eqb g STAR)
      end.
@@ -116,7 +118,7 @@ Definition style_of (p : path) (b : N) (m : pymod) : option style :=
       else if dotted_eqb d (p ++ [b]) then (if N.eqb n STAR then match k with None => Some StStar | _ => None end
                                             else Some (StFromMod n k))
       else None
-  | [IFrom 1 [] [(n, None)]] => if N.eqb n b then Some StRelPkg else None
+  | [IFrom 1 [] [(n, k)]] => if N.eqb n b then Some (StRelPkg k) else None
   | [IFrom 1 [n'] [(g, k)]] => if N.eqb n' b then Some (StRelMod g k) else None
   | _ => None
   end.
@@ -130,16 +132,53 @@ Definition istmt_eqb (a b : istmt) : bool :=
   end.
 
 (* domain of C05_move_module_refs, evaluated by the runner on every generated case *)
-Definition move_domain (w : world) (src : res) (dest : path) (m : pymod) : bool :=
+Definition move_domain (V : variant) (w : world) (src : res) (dest : path) (m : pymod) : bool :=
   match src with
   | RPy p b =>
       legal_move w p b dest
       && negb (res_eqb (m_res m) src)
       && match globals_of w (m_res m) with [] => true | _ => false end
       && match style_of p b m with
-         | Some st => style_side w p b dest (m_folder m) st && forallb (ref_ok w p b st) (m_refs m)
+         | Some st => style_side V w p b dest (m_folder m) st && forallb (ref_ok w p b st) (m_refs m)
                       && list_eqb istmt_eqb (m_imports m) (style_imports p b st)
          | None => false
+         end
+  | RDir _ => false
+  end.
+
+(* ---------------------------------------------------------------- moving a module file to the project root *)
+
+Definition legal_move_root (w : world) (p : path) (b : N) : bool :=
+  let l := w_l w in
+  wf_layout l && single_root l
+  && has_py l p b && negb (N.eqb b INIT) && negb (N.eqb b STAR)
+  && negb (is_dir l (p ++ [b])) && is_dir l p
+  && match p with [] => false | _ => true end
+  && negb (is_dir l [b]) && negb (has_py l [] b)
+  && negb (is_some (assoc_res (RPy [] b) (w_g w)))
+  && no_global_shadow w [] (p ++ [b]).
+
+(* the client's folder must not make rope's implicit relative look-up of the new top-level name succeed *)
+Definition fallback_root_ok (l : layout) (folder : path) (b : N) : bool :=
+  match folder with
+  | [] => true
+  | _ => negb (is_dir l (folder ++ [b])) && negb (has_py l folder b)
+  end.
+
+(* domain of C05_move_to_root_refs: from p import b [as x]  clients, once _change_import_statements also
+   runs for a destination without a module name *)
+Definition root_domain (V : variant) (w : world) (src : res) (m : pymod) : bool :=
+  match src with
+  | RPy p b =>
+      v_rootfrom V && legal_move_root w p b
+      && negb (res_eqb (m_res m) src)
+      && fallback_root_ok (w_l w) (m_folder m) b
+      && match style_of p b m with
+         | Some (StFromPkg xo) =>
+             match xo with Some y => negb (N.eqb y b) | None => true end
+             && forallb (ref_ok w p b (StFromPkg xo)) (m_refs m)
+             && list_eqb istmt_eqb (m_imports m) (style_imports p b (StFromPkg xo))
+         | _ => false
          end
   | RDir _ => false
   end.
@@ -181,7 +220,8 @@ Definition rename_style_side (p : path) (b : N) (folder : path) (st : style) : b
                    && match x with Some y => negb (N.eqb y b) | None => true end
   | StFromMod g k => negb (N.eqb g b) && negb (N.eqb g STAR)
   | StStar => true
-  | StRelPkg => path_eqb folder p && match p with [] => false | _ => true end
+  | StRelPkg x => path_eqb folder p && match p with [] => false | _ => true end
+                  && match x with None => true | Some _ => false end
   | StRelMod g k => path_eqb folder p && match p with [] => false | _ => true end
                     && negb (N.eqb g b) && negb (N.eqb g STAR)
   end.
